@@ -36,6 +36,13 @@ ByteOfBits(bits, p) == 128 * bits[p] + 64 * bits[p + 1] + 32 * bits[p + 2] + 16 
                        + 8 * bits[p + 4] + 4 * bits[p + 5] + 2 * bits[p + 6] + bits[p + 7]
 BytesOfBitsMSB(bits) == LET n == Len(bits) \div 8 IN [i \in 1..n |-> ByteOfBits(bits, 8 * (n - i) + 1)]
 
+ByteAnd(a, b) == FoldLeft(LAMBDA acc, i : acc + (IF BitOf(a, i) = 1 /\ BitOf(b, i) = 1 THEN Pow2(i) ELSE 0), 0, <<0, 1, 2, 3, 4, 5, 6, 7>>)
+ByteOr(a, b)  == FoldLeft(LAMBDA acc, i : acc + (IF BitOf(a, i) = 1 \/ BitOf(b, i) = 1 THEN Pow2(i) ELSE 0), 0, <<0, 1, 2, 3, 4, 5, 6, 7>>)
+\* 0/1 flags, bit 0 first, length a multiple of 8 -> bytes
+BytesOfFlags(f) == [j \in 1..(Len(f) \div 8) |-> FoldLeft(LAMBDA acc, i : acc + f[8 * (j - 1) + i + 1] * Pow2(i), 0, <<0, 1, 2, 3, 4, 5, 6, 7>>)]
+RECURSIVE DecDigitsN(_)
+DecDigitsN(n) == IF n < 10 THEN <<48 + n>> ELSE DecDigitsN(n \div 10) \o <<48 + (n % 10)>>
+
 \* ---- big integers --------------------------------------------------------------------------------------
 BigZero     == <<0, 0>>
 Mag(t)      == Drop(t, 1)
@@ -67,6 +74,7 @@ BigToLE(t, w) == LET le == Rev(PadLeft(Mag(t), w)) IN IF IsNeg(t) THEN IncLE(Not
 LEToBig(b, signed) ==
     LET n == Len(b) IN
     IF signed /\ b[n] >= 128 THEN MkBig(1, Rev(IncLE(NotLE(b)))) ELSE MkBig(0, Rev(b))
+LE32Big(t) == Rev(PadLeft(Mag(t), 4))                       \* non-negative big integer < 2^32 as 4 little-endian bytes
 SmallToBig(n) == MkBig(0, Rev(LE(n, 4)))
 \* value of a big integer known to be small and non-negative (lengths)
 BigToSmall(t) == LET m == PadLeft(Mag(t), 4) IN m[4] + 256 * m[3] + 65536 * m[2] + 16777216 * m[1]
